@@ -171,23 +171,46 @@ pub fn run(a: &Args) {
         check_value(&mut o, &mut r, &v, &crc_algs, true);
         done += 1;
     }
-    // values around the 254-byte COBS block boundary and larger heapless capacities
-    for len in [250usize, 253, 254, 255, 256, 508, 509] {
-        let bytes: Vec<u8> = (0..len).map(|i| if r.chance(1, 40) { 0 } else { (i % 255 + 1) as u8 }).collect();
-        let v = Val::Tuple(bytes.iter().map(|b| Val::unsigned(IK::U8, *b as u128)).collect());
-        let plain = postcard::to_allocvec(&v).unwrap();
-        let mut cobs = refimpl::cobs_encode(&plain);
-        cobs.push(0);
-        let vs = v.to_string();
-        for cap in [cobs.len() - 1, cobs.len(), cobs.len() + 1, plain.len() - 1, plain.len(), plain.len() + 1] {
-            let (got, _) = on_slice(&mut o, "to_slice_cobs", &vs, cap, true, |b| postcard::to_slice_cobs(&v, b).map(|s| s.len()));
-            judge(&mut o, "to_slice_cobs", &vs, cap, &got, &cobs, false);
-            let (got, _) = on_slice(&mut o, "to_slice", &vs, cap, true, |b| postcard::to_slice(&v, b).map(|s| s.len()));
-            judge(&mut o, "to_slice", &vs, cap, &got, &plain, false);
-            if let Some(got) = hcap!(cap, B => guarded(|| postcard::to_vec_cobs::<Val, B>(&v).map(|h| h.to_vec()))) {
-                judge(&mut o, "to_vec_cobs", &vs, cap, &got, &cobs, false);
+    // values around the 254-byte COBS block boundary (zero-free, with a zero at either end and
+    // with interior zeros), every capacity from a few bytes below the plain length to a few
+    // above the framed length, on the slice and on the heapless vector
+    for len in [252usize, 253, 254, 255, 256, 507, 508, 509] {
+        for variant in 0..5 {
+            let mut bytes: Vec<u8> = (0..len).map(|i| (i % 255 + 1) as u8).collect();
+            match variant {
+                0 => {}
+                1 => bytes[0] = 0,
+                2 => bytes[len - 1] = 0,
+                3 => bytes[len / 2] = 0,
+                _ => {
+                    for b in bytes.iter_mut() {
+                        if r.chance(1, 40) {
+                            *b = 0;
+                        }
+                    }
+                }
             }
-            o.eval(&(&vs, cap), true);
+            let v = Val::Tuple(bytes.iter().map(|b| Val::unsigned(IK::U8, *b as u128)).collect());
+            let plain = postcard::to_allocvec(&v).unwrap();
+            let mut cobs = refimpl::cobs_encode(&plain);
+            cobs.push(0);
+            let vs = v.to_string();
+            for cap in plain.len() - 3..=cobs.len() + 2 {
+                let (got, whole) = on_slice(&mut o, "to_slice_cobs", &vs, cap, cap % 2 == 0, |b| postcard::to_slice_cobs(&v, b).map(|s| s.len()));
+                judge(&mut o, "to_slice_cobs", &vs, cap, &got, &cobs, false);
+                if variant == 0 || variant == 3 {
+                    o.case("toslice_cobs", &[&vs, &cap.to_string()], &model_slice(&got, &whole));
+                }
+                let (got, _) = on_slice(&mut o, "to_slice", &vs, cap, cap % 2 == 1, |b| postcard::to_slice(&v, b).map(|s| s.len()));
+                judge(&mut o, "to_slice", &vs, cap, &got, &plain, false);
+                if let Some(got) = hcap!(cap, B => guarded(|| postcard::to_vec_cobs::<Val, B>(&v).map(|h| h.to_vec()))) {
+                    judge(&mut o, "to_vec_cobs", &vs, cap, &got, &cobs, false);
+                }
+                if let Some(got) = hcap!(cap, B => guarded(|| postcard::to_vec::<Val, B>(&v).map(|h| h.to_vec()))) {
+                    judge(&mut o, "to_vec", &vs, cap, &got, &plain, false);
+                }
+            }
+            o.bump("block_boundary_values");
         }
     }
     // collect_str: running out of room in the text pass is a CollectStrError
